@@ -199,10 +199,20 @@ theorem C20_status_size_match_sent (m : PathB → PathB → Bool) (errLen : Nat 
           exact ⟨hag.2.1, hag.2.2.1⟩
         · cases he
 
+/-- The log decision is taken on the path AS RECEIVED: whatever path the inner handler (or a
+rewrite/ext/internal directive in front of it) leaves in the request — `o.newPath`, set in place
+or by replacing `r.URL` — the lines written and the client's response are the same. -/
+theorem C20_rewritten_path_is_irrelevant (m : PathB → PathB → Bool) (errLen : Nat → Nat) (rules : List Rule)
+    (path : PathB) (o : Outcome) (p' : Option PathB) :
+    serverServe m errLen rules path { o with newPath := p' } = serverServe m errLen rules path o := by
+  rfl
+
 /-- One line per configured log (partial: excludes the two recorded failure classes).  For the
 `i`-th `log` directive `d` of the block, a request whose handler does not panic and for which no
 earlier directive with a different scope matches produces exactly one line in log `i` if the path
-is in `d`'s scope and matches none of `d`'s OWN `except` paths, and no line otherwise. -/
+THE MIDDLEWARE RECEIVED is in `d`'s scope and matches none of `d`'s OWN `except` paths, and no line
+otherwise.  `o` ranges over all handler behaviours including those that change the request path
+(`o.newPath`): scope and exceptions are judged on `path`, never on the rewritten one. -/
 theorem C20_one_line_per_entry_partial (m : PathB → PathB → Bool) (errLen : Nat → Nat) (ds : List Directive)
     (path : PathB) (o : Outcome) (hp : o.panics = false)
     (i : Nat) (d : Directive) (hd : ds[i]? = some d) (hns : shadowed m ds d path = false) :
@@ -290,6 +300,18 @@ theorem C20_errors_directive_contains_panics (errLen : Nat → Nat) (o : Outcome
     · simp [hp, hr]
     · simp only [hp, hr, if_false]
       simpa using hp
+
+/-- test: `log / { except /a/b }`, request `/b`, the inner handler rewrites the path onto the
+excepted `/a/b` in place and answers 404: the line is still written (and `/a/b` rewritten to `/b`
+still is not logged) -/
+example :
+    let ds : List Directive := [{ scope := [47], excepts := [[47, 97, 47, 98]] }]
+    let r := serverServe cleanPathMatches (fun _ => 14) (logParse ds) [47, 98]
+      { ops := [], ret := 404, panics := false, newPath := some [47, 97, 47, 98] }
+    let r' := serverServe cleanPathMatches (fun _ => 14) (logParse ds) [47, 97, 47, 98]
+      { ops := [.write 3], ret := 0, panics := false, newPath := some [47, 98] }
+    r.lines = [{ entry := 0, status := 404, size := 14 }] ∧ r'.lines = [] := by
+  decide
 
 /-- test: a panicking handler behind `errors`: one line, status 500, size of the error body -/
 example :
